@@ -5,7 +5,7 @@ VERIF = os.path.dirname(os.path.dirname(os.path.abspath(__file__)))
 REPO = os.environ.get('VERIF_REPO', '/repo')
 SCRATCH_ROOT = os.environ.get('VERIF_SCRATCH', '/tmp')
 os.makedirs(SCRATCH_ROOT, exist_ok=True)
-EVIDENCE_DIR = os.path.join(VERIF, 'evidence')
+EVIDENCE_DIR = os.environ.get('VERIF_EVIDENCE_DIR') or os.path.join(VERIF, 'evidence')      # override: evaluations of seeded / scratch trees must not touch the committed evidence
 REPLAY_DIR = os.path.join(VERIF, 'replays')
 KNOWN_FINDINGS = os.path.join(VERIF, 'known_findings.json')
 KANI_TOOLCHAIN = 'nightly-2026-08-21'
